@@ -136,6 +136,16 @@ CLAIMED['C17'] = dict(
     technique='lemma harnesses with contract clauses over symbolic floats on extracted real bodies (CBMC, loop-free => complete), ghost accumulation monitor with ACCESS preconditions',
     design='4/C17')
 
+CLAIMED['C05'] = dict(
+    text='Partial. Contract proof of the layout-converting constructors of homogeneous_color_base (N = 3, 4; mem-initialiser lists cut from '
+         'color_base.hpp, mapping_transform values bound by g++ on the real headers, memory index of each colour name measured on real pixel objects): '
+         'after dst(src) every named colour of dst equals that of src, for all 4 ordered pairs of rgb/bgr and all 16 ordered pairs of '
+         'rgba/bgra/argb/abgr, over fully symbolic channel values; semantic_at_c<K> == at_c<mapping[K]> and the mapping is a permutation.',
+    note=TRUST + 'The recursive static_* algorithms, proxy assignment/equality plumbing and planar references are template recursion with no arithmetic and are not '
+         'extracted; packed / bit-aligned channel positions are under C08.',
+    technique='function contracts (CBMC DFCC) on the extracted mem-initialiser lists with compile-time constants bound by the real compiler',
+    design='4/C05')
+
 NOT_APPLICABLE = {
     'C12': 'relates two whole template pipelines through a file/stream and external C libraries; no function contract within reach of a C verifier states what read_image returns after write_view (DESIGN 5)',
     'C13': 'equality of results of different compositions of reader classes/devices/policies over the same bytes is a relational property over I/O histories, not a pre/postcondition of an extractable function (DESIGN 5)',
